@@ -235,9 +235,26 @@ def rewrite(text, log, keep_derives=None, drop_derives=()):
         while text[e - 1] == '\\':
             e = text.index('"', e + 1)
         body = text[q:e]
-        if '\\' in body or any(ord(c) > 126 or ord(c) < 32 for c in body):
-            raise ExtractError('D23: byte-string literal with escapes is not supported')
-        rep = '&[' + ', '.join('0x%02xu8' % ord(c) for c in body) + ']'
+        if any(ord(c) > 126 or ord(c) < 32 for c in body):
+            raise ExtractError('D23: byte-string literal with raw non-printable characters is not supported')
+        # simple escapes of the language reference: \n \r \t \\ \0 \" \' \xNN
+        bs = []
+        i = 0
+        simple = {'n': 10, 'r': 13, 't': 9, '\\': 92, '0': 0, '"': 34, "'": 39}
+        while i < len(body):
+            c = body[i]
+            if c != '\\':
+                bs.append(ord(c)); i += 1; continue
+            if i + 1 >= len(body):
+                raise ExtractError('D23: dangling backslash in byte-string literal')
+            d = body[i + 1]
+            if d in simple:
+                bs.append(simple[d]); i += 2
+            elif d == 'x' and re.match(r'[0-9a-fA-F]{2}', body[i + 2:i + 4]):
+                bs.append(int(body[i + 2:i + 4], 16)); i += 4
+            else:
+                raise ExtractError('D23: unsupported escape in byte-string literal')
+        rep = '&[' + ', '.join('0x%02xu8' % b for b in bs) + ']'
         log.append(('D23', 'byte-string literal b"%s" spelled as an array literal' % body, ln(m.start())))
         edits.append((m.start(), e + 1, rep))
     # D3: closure parameter `_`
